@@ -464,3 +464,31 @@ pub fn run(args: &[String]) -> Value {
         "events_raw": n_events_raw, "events_written": n_events,
         "mismatch_counts": mm.counts(), "mismatches": mm.items(), "samples": samples})
 }
+
+/// `vh det <cases.ndjson> <K> <process-tag>`: every program parsed and run K times from scratch; one record per
+/// run with the canonical outcome (union members / struct fields sorted), for Trace_Det.tla.
+pub fn det(args: &[String]) -> Value {
+    let cases = read_ndjson(&args[0]);
+    let k: usize = args[1].parse().unwrap();
+    let tag = args.get(2).cloned().unwrap_or_else(|| "p".into());
+    let fuel: u64 = 200_000;
+    let mut out = std::io::BufWriter::new(std::io::stdout());
+    let mut n = 0u64;
+    for case in &cases {
+        let stmts = case["prog"].as_array().unwrap();
+        let Ok(text) = catch(|| Renderer::new().program(stmts)) else { continue };
+        for rep in 0..k {
+            let r = run_program(&text, case["std"].as_bool().unwrap_or(false), fuel, None, &[]);
+            if r.status == "budget" {
+                continue;
+            }
+            let outcome = json!({"parse": r.parse, "static": r.static_type, "status": r.status,
+                "value": r.value, "error": if r.status == "value" { Value::Null } else { json!(r.detail) }, "log": r.log});
+            writeln!(out, "{}", json!({"id": case["id"], "run": format!("{tag}{rep}"), "outcome": outcome.to_string(), "o": outcome})).unwrap();
+            n += 1;
+        }
+    }
+    out.flush().unwrap();
+    let _ = n;
+    Value::Null
+}
